@@ -24,6 +24,8 @@ def mk_columns(op, array_align, nsym=2):
     # quick: nsym = 2 symbolic characters in row a (third fixed 'A'); thorough: all 3
     TOTAL = NA**nsym * NB * (3 if uses_pos else 1)
 
+    NBLOCKS = W.nblocks(TOTAL)
+
     def check(code: int) -> bool:
         """
         pre: 0 <= code < TOTAL
